@@ -14,6 +14,7 @@ THEOREMS = [
     "Cxx.C05_parser",
     "Cxx.prune_none",
     "Cxx.prune_flat_block",
+    "Cxx.C05_whole_source_pruned",
 ]
 ANCHORS = [
     "parser.py:CxxParser._setup_state", "parser.py:CxxParser._pop_state", "parser.py:CxxParser._parse_namespace",
@@ -26,6 +27,7 @@ RULE = ("block forests with uniquely named blocks (all forests of <=3 blocks ove
         "nested blocks x all skip subsets; then random forests of up to 9 blocks, half of them with mixed leaf kinds, x random skip subsets); a case is (program, skip set); "
         "non-trivial = at least one skipped block whose start callback is actually delivered")
 CARRIED_BY = {
+    "whole sources under ANY skip set: for a source that is an Item (declarations of the proven forms in namespaces / extern blocks / classes nested to any depth) the visitor receives prune(skip) of on_parse_start followed by exactly the item's callbacks": "theorem C05_whole_source_pruned (composition of parse_source with C05_parser)",
     "stream equals pruned unskipped stream, for every client, input and skip set": "theorem C05_skip_prunes (full, generic) + C05_parser (instance at the parser model)",
     "parser model = parser.py": "correspondence `parse+skip` (model vs implementation, full event streams)",
     "implementation satisfies the statement on generated cases": "oracle `impl_prune` (not proof; search for failing input)",
